@@ -104,7 +104,10 @@ def _check_positions(ex, toks, n, b, info):
 LONG_FORMS = [("digits", b"", b"7", b" "), ("signed digits", b"-", b"7", b" "), ("real", b"0.", b"7", b" "), ("digits then dot", b"", b"7", b". "), ("name", b"/", b"a", b" "),
               ("name escapes", b"/", b"#41", b" "), ("keyword", b"", b"k", b" "), ("literal string", b"(", b"a", b") "), ("nested parentheses", b"", b"(", b") "),
               ("escapes in a string", b"(", b"\\(", b") "), ("hex string", b"<", b"4", b"> "), ("comment", b"%", b"c", b"\n"), ("white space", b"", b" ", b"x "),
-              ("array brackets", b"", b"[", b"] "), ("dictionary brackets", b"", b"<<", b">> ")]
+              ("array brackets", b"", b"[", b"] "), ("dictionary brackets", b"", b"<<", b">> "),
+              # whole tokens repeated: long runs of short comments, numbers, names, strings, empty containers and a mixture
+              ("comment lines", b"", b"%c\n", b""), ("empty comment lines", b"", b"%\r", b""), ("numbers", b"", b"1 ", b""), ("names", b"", b"/a", b" "), ("strings", b"", b"(a)", b""),
+              ("hex strings", b"", b"<41>", b""), ("empty arrays", b"", b"[]", b""), ("mixture", b"", b"%\n/a 1(s\\\n)<4>[-.5]<<>>", b" ")]
 LONG_LENGTHS = [4095, 4096, 4097, 4300, 4301, 8192, 70000]
 LONG_BUFS = [4096, 509, 4097]
 
